@@ -778,6 +778,7 @@ def sanitize(prog, classes):
       compare   a < b ...  ->  (a + 0) < (b + 0)
       shift     a << b     ->  a << (int)b
       compound  lv op= e   ->  lv = lv op (e)
+      dowhile   do B while (c);  ->  while (c) B
     The result is simply another program (Src.tla is run on it again); nothing relies on equivalence."""
     cmpops = ("<", "<=", ">", ">=", "==", "!=")
 
@@ -825,7 +826,7 @@ def sanitize(prog, classes):
             elif k == "if":
                 out.append(dict(s, c=ex(s["c"]), t=st(s["t"]), f=st(s["f"])))
             elif k in ("while", "dowhile"):
-                out.append(dict(s, c=ex(s["c"]), b=st(s["b"])))
+                out.append(dict(s, k="while" if "dowhile" in classes else k, c=ex(s["c"]), b=st(s["b"])))
             elif k == "for":
                 out.append(dict(s, hi=ex(s["hi"]), b=st(s["b"])))
             elif k == "seq":
